@@ -115,7 +115,7 @@ class Prog:
         x = self.fresh()
         self.stmts.append(("call", x, h, op, owner, name))
         base = name[4:] if name.startswith("try_") else name
-        trait = owner in ("BumpAllocator", "BumpAllocatorScope", "BumpAllocatorTypedScope", "MutBumpAllocatorTypedScope")
+        trait = owner in ("BumpAllocator", "BumpAllocatorCore", "BumpAllocatorScope", "BumpAllocatorTypedScope", "MutBumpAllocatorTypedScope")
         recv = f"v{h}"
         if name == "deref": expr = f"&*{recv}"
         elif name == "deref_mut": expr = f"&mut *{recv}"
@@ -126,7 +126,7 @@ class Prog:
             if m: turbofish, a = f"::<{m.group(1)}>", m.group(2)
             if trait:
                 r = ("&mut " if s.recv == "refMut" else "&") + recv
-                if owner in ("BumpAllocator", "BumpAllocatorScope") and self.info.get(h, {}).get("isref"):
+                if owner in ("BumpAllocator", "BumpAllocatorCore", "BumpAllocatorScope") and self.info.get(h, {}).get("isref"):
                     r = ("&mut *" if s.recv == "refMut" else "&*") + recv      # Self = the referent, which implements these traits
                 expr = f"{owner}::{name}{turbofish}({r}{', ' + a if a else ''})"
             elif owner == "Bump" and s.recv == "ref" and self.info.get(h, {}).get("isref"):
@@ -144,7 +144,38 @@ class Prog:
             self.emit(f"{expr};")
         else:
             self.info[x] = {"kind": kind, "isref": s.ret in ("scopeRef", "scopeMut", "bumpRef", "bumpMut"), "ret": s.ret}
+            if s.ret == "stats": self.info[x]["ty"] = "AnyStats" if base == "any_stats" else "Stats"
+            if s.ret == "box" and base in ("alloc_slice_copy", "alloc_slice_clone", "alloc_slice_move", "alloc_slice_fill"): self.info[x]["ty"] = "BumpBox"
             self.emit(f"let mut v{x}{': ' + ann if ann else ''} = {expr};")
+        return x
+
+    def vconv(self, v, row):
+        """a conversion between lifetime-carrying values (a row of the table's valueConvs)"""
+        form, inp, name, out = row[0], row[1], row[2], row[3]
+        self.methods.add((inp, name))
+        x = self.fresh(); self.stmts.append(("vconv", x, v, inp, name))
+        opt = out.startswith("Option<") or form == "item"
+        head = out[7:-1] if out.startswith("Option<") else out
+        if form == "from_": expr = f"{name}(v{v})" if "::" in name else f"{out}::from(v{v})"
+        else: expr = f"v{v}.{name}()"
+        if opt: expr += ".unwrap()"
+        glue = head in ("BumpBox", "FixedBumpVec", "FixedBumpString")
+        self.info[x] = {"kind": "val", "isref": False, "ret": "box" if glue else "stats", "ty": head}
+        if glue: self.info[v]["moved"] = True
+        self.emit(f"let mut v{x} = {expr};"); return x
+
+    def from_parts(self, f, h, ty, into, row):
+        """`let v = Ty::from_parts(f, &h); let x = v.into_*();` — in the calculus: a collection over `h`, its `into_*`, and the
+        `join` with the region of `f` (as far as the signature of `from_parts` ties the two lifetimes)"""
+        self.methods.add((row[1], row[2]))
+        v = self.fresh(); self.stmts.append(("coll", v, h, "shr"))
+        isref = self.info[h]["isref"]
+        self.info[v] = {"kind": "coll", "isref": False, "ty": ty}
+        self.emit(f"let mut v{v} = {row[2]}(v{f}, {'&*' if isref else '&'}v{h});")
+        self.info[f]["moved"] = True
+        x = self.call(v, ty, into)
+        self.info[v]["moved"] = True
+        self.stmts.append(("join", x, f, row[1], row[2]))
         return x
 
     def coll(self, h, mode, ty=None):
@@ -195,6 +226,7 @@ class Prog:
         """does the Rust type of the variable have drop glue (an implicit drop at the end of its block is a use)?"""
         i = self.info.get(v, {})
         k = i.get("kind")
+        if i.get("moved"): return False
         if k in ("guard", "claim", "poolGuard", "coll", "pool"): return True
         if k == "bump": return not i.get("isref")
         if k == "val": return i.get("ret") == "box"
@@ -219,8 +251,9 @@ class Prog:
 RUST_HEAD = """{header}#![forbid(unsafe_code)]
 #![allow(unused, unused_must_use)]
 use life_cases::*;
-use bump_scope::{{Bump, BumpScope, BumpPool, BumpVec, BumpString, MutBumpVec, MutBumpVecRev, MutBumpString, settings::BumpSettings}};
-use bump_scope::traits::{{BumpAllocator, BumpAllocatorScope, BumpAllocatorTypedScope, MutBumpAllocatorTypedScope}};
+use bump_scope::{{Bump, BumpScope, BumpPool, BumpVec, BumpString, MutBumpVec, MutBumpVecRev, MutBumpString, BumpBox, FixedBumpVec, FixedBumpString, settings::BumpSettings}};
+use bump_scope::traits::{{BumpAllocator, BumpAllocatorCore, BumpAllocatorScope, BumpAllocatorTypedScope, MutBumpAllocatorTypedScope}};
+use bump_scope::stats::{{Stats, Chunk, ChunkPrevIter, ChunkNextIter, AnyStats, AnyChunk, AnyChunkPrevIter, AnyChunkNextIter}};
 """
 
 # ------------------------------------------------------------------------------------------------
@@ -664,10 +697,10 @@ SETUPS = [("bump", su_bump), ("&mut Bump", su_bump_mutref), ("&Bump", su_bump_re
 # setups in which the whole alloc family is instantiated (the other setups get the plain `alloc` / `alloc_str` only)
 FULL_ALLOC_SETUPS = {"bump", "guard.scope()", "by_value", "scoped-closure"}
 
-OWNER_KINDS = {"Bump": ["bump"], "BumpScope": ["scope", "claim", "poolGuard"], "BumpScopeGuard": ["guard"], "BumpClaimGuard": ["claim"],
+OWNER_KINDS = {"BumpAllocatorCore": ["bump", "scope"], "Bump": ["bump"], "BumpScope": ["scope", "claim", "poolGuard"], "BumpScopeGuard": ["guard"], "BumpClaimGuard": ["claim"],
                "BumpPool": ["pool"], "BumpPoolGuard": ["poolGuard"], "BumpAllocator": ["bump", "scope"], "BumpAllocatorScope": ["scope"],
                "BumpAllocatorTypedScope": ["scope", "bumpref"], "MutBumpAllocatorTypedScope": ["scope", "bumpref"]}
-TRAITS = ("BumpAllocator", "BumpAllocatorScope", "BumpAllocatorTypedScope", "MutBumpAllocatorTypedScope")
+TRAITS = ("BumpAllocator", "BumpAllocatorCore", "BumpAllocatorScope", "BumpAllocatorTypedScope", "MutBumpAllocatorTypedScope")
 DERIVING_OPS = ("alloc", "mkGuard", "guardScope", "viewScope", "viewSame", "claim", "poolGet")
 
 def receives(sig, owner, o):
@@ -737,21 +770,79 @@ def derivations(table):
                 res.append(((ty, n), ("coll", mode), (lambda P, o, ty=ty, mode=mode, n=n: P.call(P.coll(o["var"], mode, ty), ty, n))))
     return res
 
+class ConvD:
+    """a derivation that continues a table method's result (a Stats / AnyStats / BumpBox<[T]> value) through a chain of value
+    conversions; the focus is the LAST row of the chain"""
+    def __init__(self, base_focus, base_sig, chain, parts=None):
+        self.base_focus, self.base_sig, self.chain, self.parts = base_focus, base_sig, chain, parts
+        self.ret = "stats"
+    def make(self, P, o):
+        r = P.call(o["var"], *self.base_focus)
+        for row in self.chain: r = P.vconv(r, row)
+        if self.parts:
+            ty, into, row = self.parts
+            long_bump = P.new_bump()
+            r = P.from_parts(r, long_bump, ty, into, row)
+        return r
+
+CONV_FULL_SETUPS = {"bump", "guard.scope()"}
+
+def conv_derivations(table, full):
+    """for every conversion row reachable from a `stats()` / `any_stats()` / `alloc_slice_copy()` result: the shortest chain
+    that ends with it (`full`), or only the `From` impls"""
+    convs = getattr(table, "convs", [])
+    res = []
+    bases = [((o, n), s) for (o, n), s in sorted(table.items())
+             if n in ("stats", "any_stats", "alloc_slice_copy") and sigs2lean.OWNER_CLASS.get(o) != "coll"]
+    def head(out):
+        h = out[7:-1] if out.startswith("Option<") else out
+        return h
+    for bf, bs in bases:
+        start = "AnyStats" if bf[1] == "any_stats" else "Stats" if bf[1] == "stats" else "BumpBox"
+        # breadth first over types
+        paths = {start: []}
+        todo = [start]
+        while todo:
+            ty = todo.pop(0)
+            for row in convs:
+                if row[1] != ty or row[0] in ("refView", "ctor"): continue
+                if row[1] in ("BumpBox", "FixedBumpVec", "FixedBumpString") and row[2] != "FixedBumpVec::from_init": continue
+                chain = paths[ty] + [row]
+                if len(chain) <= 3 and (full or row[0] == "from_" or len(chain) == 1):
+                    res.append(((row[1], row[2]), ConvD(bf, bs, chain)))
+                h = head(row[3])
+                if h not in paths and len(chain) < 3 and not h.startswith("&"):
+                    paths[h] = chain; todo.append(h)
+        if start == "BumpBox":
+            for row in convs:
+                if row[0] == "ctor" and row[1] == "FixedBumpVec":
+                    ty = row[2].split("::")[0]
+                    for (o_, n), sg in sorted(table.items()):
+                        if o_ == ty and n.startswith("into_"):
+                            res.append(((row[1], row[2]), ConvD(bf, bs, paths.get("FixedBumpVec", []), parts=(ty, n, row))))
+    return res
+
 def gen_derived(table, cases):
     for setup_name, su in SETUPS:
         probe = su(Prog(table)); o0 = probe["chain"][-1]; closure = probe.get("closure", False)
-        for focus, sig, make in derivations(table):
+        convd = [(f_, d_, d_.make) for f_, d_ in conv_derivations(table, setup_name in CONV_FULL_SETUPS)]
+        for focus, sig, make in derivations(table) + convd:
             owner, name = focus
-            if isinstance(sig, tuple):      # a collection over the handle
+            if isinstance(sig, ConvD):
+                if not receives(sig.base_sig, sig.base_focus[0], o0): continue
+                if sig.parts and setup_name not in CONV_FULL_SETUPS | {"scoped-closure", "by_value", "pool.get"}: continue
+                is_alloc = True
+                name = name + ("." + sig.parts[1] if sig.parts else "") + "<-" + "::".join(sig.base_focus) + ("" if len(sig.chain) < 2 else "~" + "~".join(r[2] for r in sig.chain[:-1]))
+            elif isinstance(sig, tuple):      # a collection over the handle
                 if o0["kind"] not in ("bump", "scope") or (sig[1] == "mut" and o0["acc"] == "shr"): continue
                 is_alloc = True
             else:
                 if not receives(sig, owner, o0): continue
                 is_alloc = sigs2lean.effect_class(owner, name) == "alloc"
             base = name[4:] if name.startswith("try_") else name
-            if is_alloc and not isinstance(sig, tuple) and setup_name not in FULL_ALLOC_SETUPS and name not in ("alloc", "alloc_str", "alloc_iter_mut", "stats", "allocator"):
+            if is_alloc and not isinstance(sig, (tuple, ConvD)) and setup_name not in FULL_ALLOC_SETUPS and name not in ("alloc", "alloc_str", "alloc_iter_mut", "stats", "any_stats", "allocator"):
                 continue
-            tagged = setup_name == "&mut Bump" and owner in ("BumpAllocatorTypedScope", "MutBumpAllocatorTypedScope")
+            tagged = setup_name == "&mut Bump" and (sig.base_focus[0] if isinstance(sig, ConvD) else owner) in ("BumpAllocatorTypedScope", "MutBumpAllocatorTypedScope")
             def add(form, build, through_o=False):
                 P = Prog(table)
                 try:
@@ -828,6 +919,7 @@ def gen_derived(table, cases):
             if not is_alloc or P_is_box(table, focus, sig): add("share", sharer)
 
 def P_is_box(table, focus, sig):
+    if isinstance(sig, ConvD): return False
     if isinstance(sig, tuple): return table[focus].ret == "box"
     return sig.ret == "box"
 
@@ -869,6 +961,14 @@ def select(cases, quick, seed, budget=700):
         for g in rng.sample(by_route[route], min(4, len(by_route[route]))): fixed += g
     # the derived corpus: every handle-producing method in every setup and form once (they are few), a sample of the alloc family
     derived = [c for c in cases if c.context.startswith("derived:")]
+    def is_conv(c): return c.focus is not None and c.focus in getattr(select, "conv_keys", set())
+    conv_cs = [c for c in derived if is_conv(c)]
+    derived = [c for c in derived if not is_conv(c)]
+    # conversions between lifetime-carrying values: every row once as the thing held across an event, once as a control
+    cv = collections.defaultdict(list)
+    for c in conv_cs: cv[(c.focus, c.route.startswith("hold-across"), c.route == "return-from-closure")].append(c)
+    for k in sorted(cv, key=str):
+        if k[1] or k[2] or rng.random() < 0.5: fixed.append(rng.choice(cv[k]))
     handle_foc = [c for c in derived if c.focus and sigs2lean.effect_class(*c.focus) != "alloc" and c.focus[0] not in ("BumpVec", "BumpString", "MutBumpVec", "MutBumpVecRev", "MutBumpString")]
     hs = collections.defaultdict(list)
     for c in handle_foc: hs[(c.focus, c.route)].append(c)
@@ -1033,6 +1133,26 @@ def compile_all(ctx, cases, d, libs):
     ctx.extra["rustc_invocations"] = {"batches": len(batches), "single": len(single), "recompiled_individually": len(redo), "total": n_invocations}
     return time.time() - t0
 
+def compile_findings(ctx, d, libs, known):
+    """the standalone programs in lifecases/findings/ that say `MUST NOT compile` (repaired findings kept as regression
+    programs): one that compiles is an escape"""
+    fdir = os.path.join(CASES, "findings")
+    outd = os.path.join(d, "target", "cases"); os.makedirs(outd, exist_ok=True)
+    deps = os.path.dirname(libs["bump_scope"])
+    n = 0
+    for f in sorted(os.listdir(fdir)) if os.path.isdir(fdir) else []:
+        path = os.path.join(fdir, f)
+        text = open(path).read()
+        if not f.endswith(".rs") or "MUST NOT compile" not in text: continue
+        rc, errs = rustc_one((path, os.path.join(outd, "finding_" + f[:-3] + ".rmeta"), "metadata", libs, deps))
+        n += 1; ctx.evaluations += 1
+        if rc != 0:
+            ctx.distinct.add("findings/" + f); continue
+        msg = f"ESCAPE-COMPILES findings/{f}: a program that must not compile is accepted by rustc (route: regression program of a repaired finding)"
+        rec = {"engine": "life", "case": "findings/" + f, "expected": "reject", "rustc": "accept", "message": msg, "replay": text, "program": text}
+        if not known_finding(known, ctx.prop, msg): ctx.oracle_failures.append(rec)
+    return n
+
 def run_checker(ctx, cases):
     lines = []
     for i, c in enumerate(cases):
@@ -1090,10 +1210,26 @@ def fault_trace(c):
 
 SIG_LINE = re.compile(r'^\s*⟨"([^"]+)", "([^"]+)", \.(\w+), \.(\w+), \.(\w+), \.(\w+), \[([^\]]*)\], \[([^\]]*)\], "([^"]*)"⟩,?\s*$')
 
+class TableDict(dict):
+    """(owner, method) -> signature; `.convs`: the rows of the table's valueConvs"""
+    convs = ()
+
+CONV_LINE = re.compile(r'^\s*⟨\.(\w+), "([^"]+)", "([^"]+)", "([^"]+)", \[([^\]]*)\], "([^"]*)"⟩,?\s*$')
+
+def conv_rows(text):
+    res = []
+    for l in text.splitlines():
+        m = CONV_LINE.match(l)
+        if m:
+            rels = [w.strip().lstrip("(.").split()[0].rstrip(")") for w in m.group(5).split(",") if w.strip()]
+            res.append((m.group(1), m.group(2), m.group(3), m.group(4), rels, m.group(6)))
+    return res
+
 def table_from_generated():
     """the signature table of the LAST GOOD extraction, read back from lean/BumpProof/Gen/Sigs.lean"""
     path = os.path.join(LEAN, "BumpProof", "Gen", "Sigs.lean")
-    table = {}
+    table = TableDict()
+    table.convs = conv_rows(open(path).read())
     def lts(txt):
         return [w.strip().lstrip("(.").split()[0].rstrip(")").replace("static_", "static") for w in txt.split(",") if w.strip()]
     for l in open(path):
@@ -1106,8 +1242,10 @@ def table_from_generated():
 
 def load_table(ctx=None):
     try:
-        sigs, impls, asserts, convs, structs, autos, drops = sigs2lean.extract(REPO)
-        return {(s.owner, s.name): s for s in sigs}
+        sigs, impls, asserts, convs, structs, autos, drops, vconvs = sigs2lean.extract(REPO)
+        t = TableDict({(s.owner, s.name): s for s in sigs})
+        t.convs = [tuple(r) for r in vconvs]
+        return t
     except sigs2lean.TErr as e:
         # the sources left the shapes the extractor knows: keep deciding programs with the last good table
         if ctx is not None:
@@ -1121,13 +1259,14 @@ def sig_entries(text):
     for l in text.splitlines():
         m = SIG_LINE.match(l)
         if m: res[(m.group(1), m.group(2))] = m.groups()[2:8]
+    for r in conv_rows(text): res[(r[1], r[2])] = (r[0], r[3], tuple(r[4]))
     return res
 
 def changed_methods(old_text, new_text):
     """methods whose table row differs between two generated tables (added / removed / changed), and whether anything else differs"""
     a, b = sig_entries(old_text or ""), sig_entries(new_text or "")
     changed = {k for k in set(a) | set(b) if a.get(k) != b.get(k)}
-    strip = lambda t: "\n".join(l for l in (t or "").splitlines() if not SIG_LINE.match(l))
+    strip = lambda t: "\n".join(l for l in (t or "").splitlines() if not SIG_LINE.match(l) and not CONV_LINE.match(l))
     return changed, strip(old_text) != strip(new_text)
 
 def run_life(ctx, budget=None, focus=None, label="life", classic_full=False):
@@ -1140,6 +1279,7 @@ def run_life(ctx, budget=None, focus=None, label="life", classic_full=False):
         ctx.add_ob("run:life-corpus", "build", False, f"no signature table: {e}"); return False
     thorough = not ctx.quick()
     corpus = build_corpus(table, thorough or classic_full)
+    select.conv_keys = {(r[1], r[2]) for r in getattr(table, "convs", []) if (r[1], r[2]) not in table}
     if classic_full:
         cases = [c for c in corpus if not c.context.startswith("derived:")]
     elif focus is not None:
@@ -1156,6 +1296,7 @@ def run_life(ctx, budget=None, focus=None, label="life", classic_full=False):
     if not run_checker(ctx, cases): return False
     wall = compile_all(ctx, cases, d, libs)
     known = load_known()
+    n_findings = compile_findings(ctx, d, libs, known) if focus is None and not classic_full else 0
     stats = collections.Counter(); by_route = collections.Counter(); by_ctx = collections.Counter(); codes = collections.Counter()
     producers = set()
     for c in cases:
@@ -1203,7 +1344,7 @@ def run_life(ctx, budget=None, focus=None, label="life", classic_full=False):
                 rec["what"] = f"accepted program faults in the calculus' dynamic semantics: {c.model_detail}"
                 ctx.disagreements.append(rec); continue
             stats["accept-and-runs-ok"] += 1
-    ctx.corr[label] = {"programs": len(cases), "rustc_wall_s": round(wall, 1), "rustc_invocations": ctx.extra.get("rustc_invocations"), **dict(stats), "contexts": dict(by_ctx), "routes": dict(by_route),
+    ctx.corr[label] = {"programs": len(cases), "regression_programs(findings/)": n_findings, "rustc_wall_s": round(wall, 1), "rustc_invocations": ctx.extra.get("rustc_invocations"), **dict(stats), "contexts": dict(by_ctx), "routes": dict(by_route),
                         "rustc_error_codes": dict(codes), "distinct_producers": len(producers)}
     ctx.add_ob(f"correspondence:{label}(calculus checker vs rustc)", "correspondence", not [x for x in ctx.disagreements if x.get("engine") == "life"],
                json.dumps([{k: v for k, v in x.items() if k != "program"} for x in ctx.disagreements[:3]], indent=1)[:3000])
